@@ -25,6 +25,9 @@ CLAIMS = {
     'C01': dict(
         text="Decides that every batch / fallible / iid / reverse form of the stream-code traits is, by construction, the per-symbol loop the property quantifies over (no impl overrides a provided batch method; each provided body makes exactly one encode_symbol/decode_symbol call per yielded item with the item's components, propagates its error and touches the coder in no other way; DecodeIidSymbols yields exactly amt items), that every conversion of an AnsCoder copies `state` unchanged, that only the coding steps, clear() and seek() assign `state`, and that Clone is derived. The core statement - encode_symbol and decode_symbol are algebraic inverses, export/import is the identity - is value-level and NOT decided: a changed threshold or state update is not detected by this check.",
         tech="override inventory over impl tables; loop-summarised structural rules on provided trait bodies and closures; literal-site / field-writer inventory (who-may-write)"),
+    'C14': dict(cat='proof',
+        text="Model-independence of chain decoding, proved as non-interference on the current tree: on every path of ChainCoder::decode_symbol (loop-free; all paths enumerated) no term derived from the model argument, the model's results, the remainders head or the remainders backend reaches the quantile handed to the model, a value stored in the compressed head, a use of the compressed backend, the decision to report OutOfCompressedData, or any branch evaluated before such an event; helpers called with &mut self write only remainders-side places. Hence, by induction over calls, the quantile sequence, words consumed and exhaustion point are functions of the compressed data alone and symbol i = model_i(quantile_i) (termination-insensitive w.r.t. remainders-sink errors). The check downgrades itself to `other` if any obligation is unresolved. Not decided: that flipping bits inside chunk j changes only quantile j (bit-level dependence through the shifted head), nor that chunk i is exactly the i-th PRECISION-bit group (arithmetic).",
+        tech="path-sensitive information-flow (non-interference) analysis over the value graph + callee frame summaries"),
 }
 
 NA = {
